@@ -183,8 +183,8 @@ impl<'a> StateMachine<'a> {
                 || self.emit_line_unchanged()?;
         }
 
-        self.handle_pending_line_with_diff_name()?;
         self.painter.paint_buffered_minus_and_plus_lines();
+        self.handle_pending_line_with_diff_name()?;
         self.painter.emit()?;
         Ok(())
     }
